@@ -38,7 +38,9 @@ class Box(object):
         self.engine = engine
         self.tmp = root or tempfile.mkdtemp(prefix="c10-", dir=common.scratch("c10"))
         ext = {"joblib": ".dmp", "h5netcdf": ".h5"}.get(engine, ".dmp")
-        self.data_name = os.path.join(self.tmp, "data" + ext) if farmer == "harvester" else os.path.join(self.tmp, "table.pkl")
+        self.df_engine = "csv" if engine == "csv" else "pickle"
+        self.data_name = (os.path.join(self.tmp, "data" + ext) if farmer == "harvester"
+                          else os.path.join(self.tmp, "table." + ("csv" if self.df_engine == "csv" else "pkl")))
         self.fn = make_fn()
 
     def close(self):
@@ -59,7 +61,7 @@ class Box(object):
             return r
         if self.farmer == "harvester":
             return xyz.Harvester(r, data_name=self.data_name, engine=self.engine)
-        return xyz.Sampler(r, data_name=self.data_name)
+        return xyz.Sampler(r, data_name=self.data_name, engine=self.df_engine)
 
     def crop(self, fresh=True, for_sow=False):
         xyz = self.xyz
@@ -112,6 +114,10 @@ def prepare(box, upto):
     if box.farmer == "harvester":
         h = box.make_farmer()
         h.harvest_combos(PRIOR, verbosity=0)
+    if box.farmer == "sampler":
+        # two earlier campaigns already merged into the table (the crop's sync is the third)
+        for a in PRIOR["a"]:
+            box.make_farmer().sample_combos(1, {"a": [a]}, verbosity=0)
     if upto == "sow":
         return
     sow(box)
@@ -209,6 +215,24 @@ def dir_state(box):
 
 def prior_survives(box):
     """None if the harvested data of before is intact, else a message."""
+    if box.farmer == "sampler":
+        if not os.path.exists(box.data_name):
+            return "the sampler's table %s is gone (dir: %r)" % (os.path.basename(box.data_name), sorted(os.listdir(box.tmp)))
+        try:
+            df = box.xyz.load_df(box.data_name, engine=box.df_engine)
+        except Exception as e:  # noqa
+            return "the sampler's table cannot be loaded any more: %s: %s" % (type(e).__name__, str(e)[:120])
+        try:
+            rows = [(float(r["a"]), float(r["x"])) for _, r in df.iterrows()]
+        except Exception as e:  # noqa
+            return "the sampler's table is unreadable: %s: %s" % (type(e).__name__, str(e)[:120])
+        for a in PRIOR["a"]:
+            if (float(a), float(100 * a + 7)) not in rows:
+                return "the previously sampled row a=%d is gone from the table (rows now: %r)" % (a, rows[:8])
+        bad = [r for r in rows if r[1] != 100 * r[0] + 7]
+        if bad:
+            return "the table holds the row %r that no run produced" % (bad[0],)
+        return None
     if box.farmer != "harvester":
         return None
     from xyzpy.manage import auto_add_extension
